@@ -75,6 +75,7 @@ def teardown (d : DS) : S :=
 def stepPoll (d : DS) (ws : List String) : DS × List String :=
   match ws with
   | [] => (d, [])
+  | ["reset"] => ({}, ["=== reset"])
   | "script" :: k :: rest =>
     let line := " ".intercalate ws
     let ops := ((" ".intercalate rest).splitOn ";").map (fun o => parseOp ((o.splitOn ":").filter (· ≠ "")))
